@@ -277,4 +277,34 @@ theorem drain_full_all {p : Par} {IA IB Rmax : Nat} (hIA : IA < 2 ^ 29) (hR : Rm
       rw [← run_append, ← e1] at this
       exact this
 
+theorem freshBa_nil (s : State) (h : s.ba = []) : FreshBa s := by
+  intro d hd; rw [h] at hd; simp at hd
+
+/-! ### a Boolean check of the run hypotheses (for examples) -/
+
+def fullChk (base : U32) (Rmax IA : Nat) (s : State) : Bool :=
+  decide (o base s.A.snd_nxt + s.A.snd_queue.length < 2 ^ 30 ∧ s.B.rcv_wnd.toNat < 2 ^ 30) &&
+  decide (s.B.rcv_queue.length < s.B.rcv_wnd.toNat ∧ s.B.rcv_wnd.toNat < 65536) && tmrChk Rmax IA s &&
+  decide (s.A.nocwnd ≠ 0 ∧ s.A.snd_wnd ≠ 0 ∧ s.A.snd_wnd.toNat < 2 ^ 31)
+
+def runFullChk (base : U32) (Rmax IA : Nat) : State → List Ev → Bool
+  | s, [] => fullChk base Rmax IA s
+  | s, ev :: rest => fullChk base Rmax IA s && runFullChk base Rmax IA (Sys.step s ev) rest
+
+theorem fullChk_sound (p : Par) (Rmax IA : Nat) (s : State) (h : fullChk p.base Rmax IA s = true) : FullHyp p Rmax IA s := by
+  unfold fullChk at h
+  simp only [Bool.and_eq_true, decide_eq_true_eq] at h
+  exact ⟨h.1.1.1, h.1.1.2, tmrChk_sound Rmax IA s h.1.2, h.2⟩
+
+theorem runFullChk_sound (p : Par) (Rmax IA : Nat) : ∀ (evs : List Ev) (s : State), runFullChk p.base Rmax IA s evs = true →
+    RunP (FullHyp p Rmax IA) s evs := by
+  intro evs
+  induction evs with
+  | nil => intro s h; exact fullChk_sound p Rmax IA s h
+  | cons ev rest ih =>
+    intro s h
+    unfold runFullChk at h
+    simp only [Bool.and_eq_true] at h
+    exact ⟨fullChk_sound p Rmax IA s h.1, ih _ h.2⟩
+
 end KcpVerif.SysC
